@@ -8,6 +8,7 @@ import (
 	"fmt"
 	"hash/fnv"
 	"strconv"
+	"strings"
 
 	"github.com/Tom-Johnston/mamba/graph"
 	"github.com/Tom-Johnston/mamba/sortints"
@@ -27,7 +28,8 @@ func init() {
 			"each graph is given to the encoders as DenseGraph and as SparseGraph (fields filled by the harness). graph6/sparse6/Multicode strings are compared byte for byte with the reference codec " +
 			"(formats.txt; nauty's ntos6 pair order and both padding rules), the library's sparse6 string is read by the reference reader which reports loops and repeated edges, and every decode " +
 			"(library string, reference string, alternative valid sparse6 encodings, with and without the >>...<< header) is compared with the graph through IsEdge, M, Degrees and Neighbours. " +
-			"Pruefer: all codes of trees on n<=7 (8 in thorough) vertices and seeded trees n<=60, encode and decode against the reference and both compositions (graphs compared through IsEdge only). " +
+			"Pruefer: all codes of trees on n<=7 (8 in thorough) vertices, seeded trees n<=60 and structured long codes (n = 255..262, 302, 402, 602, 1002: stars, double stars, runs of 127..129 / 255..257 / 511..513 equal entries at small, middle and large labels, paths, caterpillars, seeded), encode and decode against the reference and both compositions (graphs compared through IsEdge only). " +
+			"graphs on 200..600 vertices with vertices of degree 129..n-1 (stars, hubs in sparse graphs) for graph6/sparse6/Multicode. " +
 			"Multicode: single records up to n=255 and concatenations of records including n=0 and n=1. " +
 			"non-trivial = graph with n >= 3 and m >= 1; distinct = hash of (workload kind, adjacency)",
 		Assumptions: []string{
@@ -45,7 +47,8 @@ func init() {
 			"s6:stream_ends_at_bit=0", "s6:stream_ends_at_bit=1", "s6:stream_ends_at_bit=2", "s6:stream_ends_at_bit=3", "s6:stream_ends_at_bit=4", "s6:stream_ends_at_bit=5",
 			"s6:zero_bit_padding_prescribed", "s6:edgeless", "s6:alternative_encodings_decoded",
 			"multicode:records", "multicode:concatenations", "multicode:n<=1_inside_concatenation",
-			"prufer:codes_decoded", "prufer:trees_encoded",
+			"prufer:codes_decoded", "prufer:trees_encoded", "prufer:codes_with_a_value_occurring>=256_times",
+			"graphs:with_a_vertex_of_degree>=256",
 		},
 	})
 }
@@ -136,6 +139,12 @@ func reps(g *rg.G) []struct {
 	name string
 	h    graph.Graph
 } {
+	if g.N > 600 { // every comparison costs n^2: the plain representations only
+		return []struct {
+			name string
+			h    graph.Graph
+		}{{"DenseGraph", g.Dense()}, {"SparseGraph", g.Sparse()}}
+	}
 	return []struct {
 		name string
 		h    graph.Graph
@@ -144,6 +153,19 @@ func reps(g *rg.G) []struct {
 		// and with dirty spare capacity behind its slices
 		{"DenseGraph(edge bytes 1..255)", g.DenseVariant(1 + g.N%5)}, {"SparseGraph(spare capacity)", g.SparseVariant(1 + g.M()%3)},
 		{"complement view of the complement", graph.Complement(g.Complement().Dense())}}
+}
+
+// describeScan renders what the strict reader saw; it never materialises a huge graph (a wrong size header can
+// declare hundreds of thousands of vertices).
+func describeScan(sc *codec.S6) string {
+	if sc.N <= 300 {
+		return sc.Graph().String()
+	}
+	e := sc.Edges
+	if len(e) > 12 {
+		e = e[:12]
+	}
+	return fmt.Sprintf("n=%d, %d pairs, first edges %v", sc.N, sc.Pairs, e)
 }
 
 // conforms compares a library graph with the model inside a guarded call.
@@ -278,7 +300,7 @@ func (m *mon) sparse6(g *rg.G, gk string, det map[string]interface{}, pick func(
 			ok = false
 		} else if int(sc.N) != g.N || sc.Loops != 0 || sc.Repeats != 0 || !sc.Graph().Equal(g) {
 			m.viol("Sparse6Encode", "string-is-another-graph", gk, det,
-				fmt.Sprintf("%s reads (formats.txt rule) as n=%d with %d loops, %d repeated edges: %s", clip(s), sc.N, sc.Loops, sc.Repeats, sc.Graph()), "a string that reads as "+g.String())
+				fmt.Sprintf("%s reads (formats.txt rule) as n=%d with %d loops, %d repeated edges: %s", clip(s), sc.N, sc.Loops, sc.Repeats, describeScan(sc)), "a string that reads as "+g.String())
 			ok = false
 		} else if s != ref {
 			// sparse6 is not a unique encoding: a string that the strict formats.txt reader reads as exactly g
@@ -632,12 +654,33 @@ func (m *mon) checkHuge(n int, edges [][2]int, label string) {
 func (m *mon) pruferCode(code []int, label string) {
 	c := m.c
 	n := len(code) + 2
-	want := codec.PruferTree(code)
+	var want *rg.G
+	if n <= 62 {
+		want = codec.PruferTree(code)
+	} else {
+		want = codec.PruferTreeCounted(code) // O(n^2), checked against PruferTree at start-up
+	}
 	ck := fmt.Sprintf("n=%d,code=%v", n, code)
 	if len(ck) > 100 {
 		ck = fmt.Sprintf("n=%d,%s,fnv=%08x", n, label, hash32(ck))
 	}
-	det := map[string]interface{}{"n": n, "code": fmt.Sprint(code), "tree": want.String(), "workload": label}
+	det := map[string]interface{}{"n": n, "code": runs(code), "workload": label}
+	if n <= 100 {
+		det["tree"] = want.String()
+	}
+	c.ObsMax("prufer:n", n)
+	maxOcc := 0
+	occ := map[int]int{}
+	for _, x := range code {
+		occ[x]++
+		if occ[x] > maxOcc {
+			maxOcc = occ[x]
+		}
+	}
+	c.ObsMax("prufer:occurrences_of_one_value_in_a_code", maxOcc)
+	if maxOcc >= 256 {
+		c.Obs("prufer:codes_with_a_value_occurring>=256_times", 1)
+	}
 	if n >= 3 {
 		c.NT("prufer", fmt.Sprint(code))
 	}
@@ -655,11 +698,12 @@ func (m *mon) pruferCode(code []int, label string) {
 	})
 	switch {
 	case pi != nil:
-		m.viol("PruferDecode", "panic|"+engine.SiteNoLine(pi.Site), ck, det, pi.String(), want.String())
+		m.viol("PruferDecode", "panic|"+engine.SiteNoLine(pi.Site), ck, det, pi.String(), "the tree of the code")
 	case got == nil:
 		m.viol("PruferDecode", "wrong-number-of-vertices", ck, det, "a graph on another number of vertices", fmt.Sprintf("a tree on %d vertices", n))
 	case !got.Equal(want):
-		m.viol("PruferDecode", "wrong-tree", ck, det, got.String(), want.String())
+		o, e := treeDiff(got, want)
+		m.viol("PruferDecode", "wrong-tree", ck, det, o, e)
 	case fmt.Sprint(in) != fmt.Sprint(code):
 		m.viol("PruferDecode", "argument-modified", ck, det, fmt.Sprint(in), fmt.Sprint(code))
 	default:
@@ -669,13 +713,16 @@ func (m *mon) pruferCode(code []int, label string) {
 		arg := got.Dense()
 		pi := c.Call("PruferEncode|decoded|"+ck, func() { back = graph.PruferEncode(arg) })
 		if pi != nil {
-			m.viol("PruferEncode", "panic|"+engine.SiteNoLine(pi.Site), ck, det, pi.String(), fmt.Sprint(code))
+			m.viol("PruferEncode", "panic|"+engine.SiteNoLine(pi.Site), ck, det, pi.String(), runs(code))
 		} else if fmt.Sprint(back) != fmt.Sprint(code) {
-			m.viol("PruferEncode∘PruferDecode", "not-identity", ck, det, fmt.Sprint(back), fmt.Sprint(code))
+			m.viol("PruferEncode∘PruferDecode", "not-identity", ck, det, runs(back), runs(code))
 		}
 		// the same composition on the library's own value: its failure is the
 		// C06 finding (no degree sequence in the decoded graph), recorded only
 		var direct []int
+		if n > 300 {
+			break
+		}
 		pd := c.Call("PruferEncode|library-value|"+ck, func() { direct = graph.PruferEncode(h) })
 		if pd != nil || fmt.Sprint(direct) != fmt.Sprint(code) {
 			c.Obs("prufer:encode_of_the_decoded_value_itself_fails(C06:PruferDecode sets no degrees)", 1)
@@ -683,18 +730,26 @@ func (m *mon) pruferCode(code []int, label string) {
 			c.Obs("prufer:encode_of_the_decoded_value_itself_ok", 1)
 		}
 	}
-	// encode the reference tree in both representations
-	for _, r := range reps(want) {
+	// encode the reference tree in every representation (the first two above 300 vertices)
+	rs := reps(want)
+	if n > 300 { // the library's encoder is quadratic: dense and sparse in turn
+		k := len(code) % 2
+		if len(code) > 3 {
+			k = (code[0] + code[len(code)/2] + code[len(code)-1] + len(code)) % 2
+		}
+		rs = rs[k : k+1]
+	}
+	for _, r := range rs {
 		c.Obs("prufer:trees_encoded", 1)
 		c.Eval(1)
 		var enc []int
 		pi := c.Call("PruferEncode|"+r.name+"|"+ck, func() { enc = graph.PruferEncode(r.h) })
 		if pi != nil {
-			m.viol("PruferEncode", "panic|"+engine.SiteNoLine(pi.Site), r.name+","+ck, det, pi.String(), fmt.Sprint(code))
+			m.viol("PruferEncode", "panic|"+engine.SiteNoLine(pi.Site), r.name+","+ck, det, pi.String(), runs(code))
 			continue
 		}
 		if fmt.Sprint(enc) != fmt.Sprint(code) {
-			m.viol("PruferEncode", "wrong-code", r.name+","+ck, det, fmt.Sprint(enc), fmt.Sprint(code))
+			m.viol("PruferEncode", "wrong-code", r.name+","+ck, det, runs(enc), runs(code))
 			continue
 		}
 		if bad, pi := m.conforms("PruferEncode|"+r.name+"|"+ck+"|read-input", r.h, want); pi == nil && bad != "" {
@@ -703,11 +758,65 @@ func (m *mon) pruferCode(code []int, label string) {
 	}
 }
 
+// runs renders an int sequence with runs collapsed ("0x256 7 3x2"), so that a
+// long code stays readable in a witness.
+func runs(a []int) string {
+	var sb strings.Builder
+	sb.WriteByte('[')
+	for i := 0; i < len(a); {
+		j := i
+		for j < len(a) && a[j] == a[i] {
+			j++
+		}
+		if i > 0 {
+			sb.WriteByte(' ')
+		}
+		if j-i >= 3 {
+			fmt.Fprintf(&sb, "%dx%d", a[i], j-i)
+		} else {
+			fmt.Fprintf(&sb, "%d", a[i])
+			if j-i == 2 {
+				fmt.Fprintf(&sb, " %d", a[i])
+			}
+		}
+		i = j
+		if sb.Len() > 1500 {
+			fmt.Fprintf(&sb, " ...(%d entries in all)", len(a))
+			break
+		}
+	}
+	sb.WriteByte(']')
+	return sb.String()
+}
+
+// treeDiff describes the first vertices on which two graphs differ by their
+// neighbour lists (long lists as counts).
+func treeDiff(got, want *rg.G) (string, string) {
+	if got.N <= 40 {
+		return got.String(), want.String()
+	}
+	show := func(l []int) string {
+		if len(l) > 12 {
+			return fmt.Sprintf("%d neighbours %v...", len(l), l[:12])
+		}
+		return fmt.Sprint(l)
+	}
+	var o, e []string
+	for v := 0; v < want.N && len(o) < 3; v++ {
+		a, b := got.Nbrs(v), want.Nbrs(v)
+		if fmt.Sprint(a) != fmt.Sprint(b) {
+			o = append(o, fmt.Sprintf("N(%d)=%s", v, show(a)))
+			e = append(e, fmt.Sprintf("N(%d)=%s", v, show(b)))
+		}
+	}
+	return fmt.Sprintf("%d edges; %s", got.M(), strings.Join(o, "; ")), fmt.Sprintf("%d edges; %s", want.M(), strings.Join(e, "; "))
+}
+
 // pruferTree starts from a tree (decode(encode(t)) == t).
 func (m *mon) pruferTree(t *rg.G, label string) {
 	c := m.c
 	code := codec.PruferCode(t)
-	if !codec.PruferTree(code).Equal(t) {
+	if !codec.PruferTreeCounted(code).Equal(t) {
 		c.Inconclusive("reference Pruefer codec is not a bijection on " + t.String())
 		return
 	}
@@ -754,6 +863,13 @@ func shapes(n int) []struct {
 			star.Add(i, n-1)
 		}
 		out = append(out, sg{"star-at-last", star})
+		for _, ctr := range []int{0, n / 2} { // a vertex adjacent to all others, small and middle label
+			st := rg.New(n)
+			for i := 0; i < n; i++ {
+				st.Add(i, ctr)
+			}
+			out = append(out, sg{fmt.Sprintf("star-at-%d", ctr), st})
+		}
 	}
 	if n >= 3 {
 		out = append(out, sg{"cycle", gen.Cycle(n)})
@@ -762,6 +878,131 @@ func shapes(n int) []struct {
 		h2 := gen.Complete(n - 2).AddVertex(nil).AddVertex([]int{0})
 		out = append(out, sg{"last-but-one-isolated", h2})
 		out = append(out, sg{"single-edge-n-3,n-2", edgesOf(n, [2]int{n - 3, n - 2})})
+	}
+	return out
+}
+
+// longCodes builds the structured long Pruefer codes of length L (trees on
+// n = L+2 vertices): values repeated across the 127/128, 255/256/257 and
+// 511/512/513 boundaries at small, middle and large labels.
+func longCodes(L int, r *engine.Rng, seeded int, thin bool) []struct {
+	label string
+	code  []int
+} {
+	type lc = struct {
+		label string
+		code  []int
+	}
+	n := L + 2
+	var out []lc
+	constant := func(v, k int) []int {
+		a := make([]int, k)
+		for i := range a {
+			a[i] = v
+		}
+		return a
+	}
+	cat := func(parts ...[]int) []int {
+		var a []int
+		for _, p := range parts {
+			a = append(a, p...)
+		}
+		return a
+	}
+	randomTail := func(k int, avoid ...int) []int {
+		a := make([]int, 0, k)
+		for len(a) < k {
+			x := r.Intn(n)
+			ok := true
+			for _, y := range avoid {
+				ok = ok && x != y
+			}
+			if ok {
+				a = append(a, x)
+			}
+		}
+		return a
+	}
+	// (i) constant: the star centred at v
+	for _, v := range []int{0, 1, 2, n / 2, n - 3, n - 2, n - 1} {
+		out = append(out, lc{fmt.Sprintf("star centred at %d", v), constant(v, L)})
+	}
+	// (ii) two values in blocks and alternating: double stars with chosen degrees
+	for _, ca := range []int{126, 127, 128, 254, 255, 256, 257, 511, 512, 513} {
+		cb := L - ca
+		if cb < 1 {
+			continue
+		}
+		for pi, pr := range [][2]int{{0, 1}, {1, 0}, {0, n - 1}, {n - 1, 0}, {2, n / 2}, {n / 2, 3}} {
+			if thin && (pi == 1 || pi >= 4) {
+				continue
+			}
+			a, b := pr[0], pr[1]
+			out = append(out, lc{fmt.Sprintf("double star: %d x%d then %d x%d", a, ca, b, cb), cat(constant(a, ca), constant(b, cb))})
+			if pi%2 == 0 {
+				out = append(out, lc{fmt.Sprintf("double star: %d x%d then %d x%d", b, cb, a, ca), cat(constant(b, cb), constant(a, ca))})
+				alt := make([]int, 0, L)
+				ia, ib := 0, 0
+				for len(alt) < L {
+					if ia < ca && (ib >= cb || len(alt)%2 == 0) {
+						alt = append(alt, a)
+						ia++
+					} else {
+						alt = append(alt, b)
+						ib++
+					}
+				}
+				out = append(out, lc{fmt.Sprintf("double star alternating: %d x%d, %d x%d", a, ca, b, cb), alt})
+			}
+		}
+	}
+	// (iii) one value repeated across a byte boundary + random rest
+	for _, rep := range []int{255, 256, 257, 300, 511, 512, 513} {
+		if rep > L {
+			continue
+		}
+		for _, v := range []int{0, 3, n / 2, n - 1} {
+			tail := randomTail(L-rep, v)
+			out = append(out, lc{fmt.Sprintf("%d x%d then a random tail", v, rep), cat(constant(v, rep), tail)})
+			out = append(out, lc{fmt.Sprintf("a random head then %d x%d", v, rep), cat(tail, constant(v, rep))})
+			mixed := cat(constant(v, rep), tail)
+			for i := len(mixed) - 1; i > 0; i-- {
+				j := r.Intn(i + 1)
+				mixed[i], mixed[j] = mixed[j], mixed[i]
+			}
+			out = append(out, lc{fmt.Sprintf("%d x%d spread among random entries", v, rep), mixed})
+		}
+	}
+	// (v) increasing / decreasing / caterpillars / spiders
+	inc := make([]int, L)
+	dec := make([]int, L)
+	cater := make([]int, L)
+	cater3 := make([]int, L)
+	for i := 0; i < L; i++ {
+		inc[i] = i + 1
+		dec[i] = L - i
+		cater[i] = n/2 + i/2
+		cater3[i] = 1 + (i/3)*2
+		if cater[i] >= n {
+			cater[i] = n - 1
+		}
+		if cater3[i] >= n {
+			cater3[i] = n - 1
+		}
+	}
+	out = append(out, lc{"increasing (path 0-1-2-...)", inc}, lc{"decreasing", dec}, lc{"caterpillar, spine in the upper half, 2 legs each", cater}, lc{"caterpillar, odd spine, 3 legs each", cater3})
+	// (iv) random codes, random codes over few values
+	for i := 0; i < seeded; i++ {
+		a := make([]int, L)
+		vals := n
+		if i%2 == 1 {
+			vals = 2 + r.Intn(3)
+		}
+		base := r.Intn(n - vals + 1)
+		for j := range a {
+			a[j] = base + r.Intn(vals)
+		}
+		out = append(out, lc{fmt.Sprintf("seeded code over %d values from %d, #%d", vals, base, i), a})
 	}
 	return out
 }
@@ -985,7 +1226,7 @@ func run(c *engine.Ctx) {
 	}
 
 	// 5. larger n: 4-byte graph6 headers (n >= 4096 uses all three size bytes), Multicode up to 255
-	bigN := []int{71, 100, 127, 128, 129, 200, 254, 255, 256, 300, 4096}
+	bigN := []int{71, 100, 127, 128, 129, 200, 254, 255, 256, 257, 258, 300, 400, 600, 4096}
 	if c.Thorough() {
 		bigN = append(bigN, 4095, 4100)
 	}
@@ -998,13 +1239,39 @@ func run(c *engine.Ctx) {
 		unit(c, fmt.Sprintf("large/n=%d", n), func(m *mon) {
 			for _, s := range shapes(n) {
 				if n > 300 {
-					if s.name == "star-at-last" { // the matrix comparisons cost n^2 each
+					// the matrix comparisons cost n^2 each: the stars only (one above 600 vertices)
+					if s.name == "star-at-last" || (n <= 600 && strings.HasPrefix(s.name, "star-at-")) {
 						m.checkGraph(s.g, s.name, fixedPick(n), opts{alts: 0, multicode: false, g6: true})
 					}
 					continue
 				}
-				if s.name == "edgeless" || s.name == "single-edge-last" || s.name == "star-at-last" || s.name == "complete" || s.name == "complete-minus-last-vertex" {
+				if s.name == "edgeless" || s.name == "single-edge-last" || strings.HasPrefix(s.name, "star-at-") || s.name == "complete" || s.name == "complete-minus-last-vertex" {
 					m.checkGraph(s.g, s.name, fixedPick(n), opts{alts: 1, multicode: true, g6: true})
+				}
+			}
+			if n >= 200 && n <= 600 {
+				// hubs: vertices of degree >= 128 / 256 inside a sparse graph (long runs for one vertex in the
+				// sparse6 stream and in a Multicode list, list entries 128..255), at a small, a middle and the last label
+				for i, hub := range [][]int{{0}, {n / 2}, {n - 1}, {1, n - 2}, {0, 1, 2}} {
+					r := c.Rand("hubs", n*10+i)
+					g := gen.Random(r, n, 1.5/float64(n))
+					for _, h := range hub {
+						deg := []int{n - 1, 257, 256, 255, 129}[(i+h)%5]
+						if deg > n-1 {
+							deg = n - 1
+						}
+						for _, u := range r.Perm(n)[:deg] {
+							g.Add(h, u)
+						}
+						for u := n - 1; u >= n-40 && u >= 0; u-- { // the high labels (bytes 216..255 of a Multicode list)
+							g.Add(h, u)
+						}
+					}
+					c.Obs("graphs:with_a_vertex_of_degree>=128", 1)
+					if g.Deg(hub[0]) >= 256 {
+						c.Obs("graphs:with_a_vertex_of_degree>=256", 1)
+					}
+					m.checkGraph(g, fmt.Sprintf("sparse graph with hubs %v", hub), picker(r), opts{alts: 1, multicode: true, g6: true})
 				}
 			}
 			for i := 0; i < cnt; i++ {
@@ -1121,6 +1388,42 @@ func run(c *engine.Ctx) {
 				}
 			}
 		})
+	}
+
+	// 7b. long Pruefer codes: vertices of degree around 128, 256, 512 (counters of one byte wrap there)
+	longL := []int{253, 254, 255, 256, 257, 258, 259, 260, 300, 400, 600, 1000}
+	if c.Thorough() {
+		longL = append(longL, 128, 129, 510, 511, 512, 513, 514, 515, 768, 770, 1030)
+	}
+	for _, L := range longL {
+		L := L
+		parts := 1 // the library's codec is quadratic: spread the long ones over several units
+		switch {
+		case L >= 1000:
+			parts = 8
+		case L >= 500:
+			parts = 4
+		case L >= 400:
+			parts = 2
+		}
+		for part := 0; part < parts; part++ {
+			part := part
+			unit(c, fmt.Sprintf("prufer/long/len=%d/%d", L, part), func(m *mon) {
+				r := c.Rand("prufer-long", L)
+				list := longCodes(L, r, c.Pick(4, 24), !c.Thorough() && L >= 600)
+				cnt := 0
+				for i, x := range list {
+					if i%parts == part {
+						m.pruferCode(x.code, fmt.Sprintf("long code, n=%d: %s", L+2, x.label))
+						cnt++
+					}
+				}
+				c.Obs("prufer:long_codes", cnt)
+				if L == 256 {
+					c.Sample("prufer-long", map[string]interface{}{"n": L + 2, "cases": len(list), "examples": []string{runs(list[0].code), runs(list[len(list)/2].code)}})
+				}
+			})
+		}
 	}
 
 	// 8. Multicode concatenations
